@@ -343,7 +343,8 @@ def main():
                     except BaseException as e:               # noqa: BLE001
                         derr = exc_name(e)
                     if derr:
-                        D = ["DERR:" + derr]
+                        # keep the refusals of MinHash(...) itself in front of the feeding error
+                        D = [m for m in direct if isinstance(m, str)] + ["DERR:" + derr]
                     else:
                         for m in direct:
                             D.append(m if isinstance(m, str) else content_rec(m, SourmashSignature(m).md5sum()))
